@@ -36,6 +36,9 @@ CHECKS: dict[str, dict] = {
     ),
 }
 
+for _f in sorted((VERIF / "harness" / "manifest_entries").glob("C*.json")):
+    CHECKS[_f.stem] = json.loads(_f.read_text())
+
 NOT_YET = "check not built yet (work in progress; see DESIGN.md section 5 for the plan)"
 
 
@@ -86,6 +89,25 @@ def main() -> None:
         for p in (lean / "PynencModel").rglob("*.lean")
         if "Audit" not in p.parts
     )
+    drivers = sorted(p.stem for p in (lean / "PynencModel" / "Driver").glob("*.lean"))
+    main = "-- GENERATED by harness/manifest.py from PynencModel/Driver/*.lean. Do not edit.\n"
+    main += "".join(f"import PynencModel.Driver.{d}\n" for d in drivers)
+    main += ("/-\n  `pynmodel`: one operation per input line, one canonical output line per operation.\n"
+             "  The harness runs the real pynenc code on the same operations and diffs the outputs.\n"
+             "  Each property's operations live in a fragment `PynencModel/Driver/*.lean` with its own state.\n-/\nopen Pynenc\n\n"
+             "structure World where\n")
+    main += "".join(f"  s{d} : Driver.{d}.St := {{}}\n" for d in drivers)
+    main += "\ndef stepLine (w : World) (line : String) : World × String :=\n  let toks := (line.splitOn \" \").filter (· ≠ \"\")\n"
+    for i, d in enumerate(drivers):
+        kw = "if" if i == 0 else "else if"
+        main += f"  {kw} let some (s, o) := Driver.{d}.handle w.s{d} toks then ({{ w with s{d} := s }}, o)\n"
+    main += ("  else (w, \"bad-op\")\n\n"
+             "partial def loop (h : IO.FS.Stream) (out : IO.FS.Stream) (w : World) : IO Unit := do\n"
+             "  let line ← h.getLine\n  if line.isEmpty then return ()\n"
+             "  let (w', o) := stepLine w (line.trimAscii.toString)\n  out.putStrLn o\n  out.flush\n  loop h out w'\n\n"
+             "def main : IO Unit := do loop (← IO.getStdin) (← IO.getStdout) {}\n")
+    if (lean / "Main.lean").read_text() != main:
+        (lean / "Main.lean").write_text(main)
     root = "-- GENERATED by harness/manifest.py: imports every module of the library\n" + "".join(f"import {m}\n" for m in mods)
     if (lean / "PynencModel.lean").read_text() != root:
         (lean / "PynencModel.lean").write_text(root)
